@@ -560,6 +560,11 @@ pool("ValueOfInformationEER/gnb-cand-idx", "ValueOfInformationEER", lambda e: (P
 for m in ["KL_divergence", "vote_entropy", "variation_ratios"]:
     pool(f"QueryByCommittee/{m}-bag", "QueryByCommittee", lambda e, m=m: (P().QueryByCommittee(method=m, missing_label=e.ml, random_state=0), {"ensemble": e.ensemble("bag")}), tag=f"sklearn-ensemble-{m}")
     pool(f"QueryByCommittee/{m}-clfs", "QueryByCommittee", lambda e, m=m: (P().QueryByCommittee(method=m, missing_label=e.ml, random_state=0), {"ensemble": e.ensemble("clfs")}), tag=f"clf-list-{m}")
+for m in ["KL_divergence", "vote_entropy", "variation_ratios"]:
+    # committee members simulated by sampling class-probability vectors from one probabilistic classifier
+    pool(f"QueryByCommittee/{m}-sampled", "QueryByCommittee",
+         lambda e, m=m: (P().QueryByCommittee(method=m, sample_predictions_method_name="sample_proba", sample_predictions_dict={"n_samples": 5},
+                                              missing_label=e.ml, random_state=0), {"ensemble": e.clf("pwc")}), tag=f"sampled-predictions-{m}")
 pool("Quire", "Quire", lambda e: (P().Quire(classes=e.classes, missing_label=e.ml, random_state=0), {}))
 pool("Quire/cand-idx", "Quire", lambda e: (P().Quire(classes=e.classes, lmbda=0.5, metric_dict={"gamma": 0.5}, missing_label=e.ml, random_state=0), {}), cand="idx")
 pool("FourDs", "FourDs", lambda e: (P().FourDs(missing_label=e.ml, random_state=0), {"clf": e.clf("mmc")}))
